@@ -102,7 +102,7 @@ fn run(mask: u32, quick: bool, seed: u64, stream: u64, rule_tail: &str) -> Outco
     let mut o = Outcome::new(&format!("{}{}", RULE, rule_tail));
     o.assumptions.push("hooks Adsr::verif_state()/verif_phase_bits() report the current phase and the raw 24-bit phase counter".into());
     o.assumptions.push("documented curves = closed forms of non_rust_utils/lookup_table_gen.py defaults (attack target 3, 4 time constants)".into());
-    let (cases, budget) = if quick { (8_000, 200_000u64) } else { (160_000, 4_000_000u64) };
+    let (cases, budget) = if quick { (40_000, 200_000u64) } else { (160_000, 4_000_000u64) };
     let part = pt_run("adsr_history", adsr_case, cases, seed, stream, if quick { 3000 } else { 1500 }, |c, st| {
         run_case(c, mask, budget, st).map(|i| i.nontrivial)
     });
@@ -122,7 +122,7 @@ pub fn c01(quick: bool, seed: u64) -> Outcome {
 pub fn c02(quick: bool, seed: u64) -> Outcome {
     let mut o = run(C02, quick, seed, 2, "non-trivial = history in which >= 1 timed phase is observed from its start to its end and >= 1 gate event arrives inside a timed phase; distinct by hash of the history. Plus generated configurations (fs, times with T*fs < 1 over-weighted) run gate-on -> sustain -> gate-off -> rest under the tick allowance");
     // durations of complete phases over the (fs x T) plane, short phases over-weighted
-    let cases = if quick { 6_000 } else { 300_000 };
+    let cases = if quick { 40_000 } else { 300_000 };
     let part = pt_run("adsr_history", adsr_config_case, cases, seed, 22, 2000, |c, st| {
         run_case(c, C02, 200_000, st).map(|_| {
             let fs = c.fs;
